@@ -712,6 +712,9 @@ fn codegen_op_http_call(op: &Operation) {
         }
 
         g!("resp.extensions.extend(s3_resp.extensions);");
+        g!("if let Some(status) = s3_resp.status {{");
+        g!("    resp.status = status;");
+        g!("}}");
     }
     g!("Ok(resp)");
 
